@@ -31,10 +31,11 @@ import (
 )
 
 const (
-	settle   = 5 * time.Second                        // upper bound for an expected asynchronous effect (bridge start, marker delivery)
-	grace    = 40 * time.Millisecond                  // extra time after the expected effects before the final snapshot
-	lateGap  = 120 * time.Millisecond                 // late cells: the tunnel is registered this long after the request passed the dispatch
-	tunnelID = "tcp-tunnel-1758990000000000000-18080" // the shape client/mapping generateTunnelID produces
+	settle         = 5 * time.Second       // upper bound for an expected asynchronous effect (bridge start, marker delivery)
+	grace          = 40 * time.Millisecond // extra time after the expected effects before the final snapshot
+	expiredJustAgo = 250 * time.Millisecond
+	lateGap        = 120 * time.Millisecond                 // late cells: the tunnel is registered this long after the request passed the dispatch
+	tunnelID       = "tcp-tunnel-1758990000000000000-18080" // the shape client/mapping generateTunnelID produces
 )
 
 // the tree the generation model describes: tunnox-core with patches/C04-1..3.
@@ -71,6 +72,7 @@ type stepT struct {
 	ID   string          `json:"id,omitempty"`
 	Cred string          `json:"cred,omitempty"`
 	MS   string          `json:"ms,omitempty"`
+	Tid  string          `json:"tid,omitempty"` // "T" (default) | "T+": the tunnel id the request names
 	Via  string          `json:"via,omitempty"`
 	Exp  json.RawMessage `json:"exp,omitempty"`
 	Must bool            `json:"must,omitempty"` // a legitimate flow that has to work (else the kit is broken: exit 2)
@@ -90,6 +92,7 @@ type client struct {
 type party struct {
 	who  string
 	node string
+	tid  string // "T" | "T+"
 	c    *srvkit.Conn
 	d    *srvkit.Duplex
 	ack  string
@@ -98,7 +101,8 @@ type party struct {
 	pending chan error
 	ev      fw.Event
 	st      stepT
-	before  srvkit.BridgeView
+	before  map[string]srvkit.BridgeView // bridges (by tunnel id name) before the request
+	goid    int64                        // goroutine serving the request (held requests)
 }
 
 type world struct {
@@ -113,6 +117,9 @@ type world struct {
 	parties map[string]*party
 	order   []string
 	nconn   int
+	tids    map[string]string // "T" / "T+" -> concrete tunnel id
+	gate    *srvkit.WriteGate // slow mapping store (usage orders only)
+	heldS   bool              // the source's open is still inside its usage write (in-flight)
 }
 
 func (w *world) close() {
@@ -124,14 +131,25 @@ func (w *world) close() {
 	}
 }
 
-func newWorld(twoNodes, crossNode, keyless bool, shape string) (*world, error) {
+func newWorld(twoNodes, crossNode, keyless bool, shape string, cell cellT) (*world, error) {
 	w := &world{nodes: map[string]*srvkit.Server{}, tun: map[string]*srvkit.Tunnels{}, cl: map[string]client{}, parties: map[string]*party{}}
+	// tunnel ids: the shape client/mapping generateTunnelID produces. In the prefix class the
+	// victim's id is its first 16 bytes (all the cross-node frame header has room for) and the
+	// other mapping's tunnel carries the full, longer id
+	w.tids = map[string]string{"T": tunnelID}
+	if cell.TS == "prefixRemote" {
+		w.tids = map[string]string{"T": tunnelID[:16], "T+": tunnelID}
+	}
 	a, err := srvkit.NewServer(srvkit.Options{NodeID: "node-A"})
 	if err != nil {
 		return nil, err
 	}
 	w.nodes["A"] = a
-	w.tun["A"] = a.EnableTunnels()
+	if usageOrder(cell.Ord) {
+		w.tun["A"], w.gate = a.EnableTunnelsSlowStore()
+	} else {
+		w.tun["A"] = a.EnableTunnels()
+	}
 	if twoNodes {
 		b, err := srvkit.NewPeer(a, srvkit.Options{NodeID: "node-B"})
 		if err != nil {
@@ -202,7 +220,24 @@ func newWorld(twoNodes, crossNode, keyless bool, shape string) (*world, error) {
 	return w, nil
 }
 
+// setMap administers the mapping and then waits until the change is visible to a read of the
+// mapping store. (repos.GenericRepositoryImpl.Get shares one in-flight storage read among all
+// callers - singleflight - so a Get issued AFTER a write returned can still be handed the value
+// an earlier, descheduled reader fetched BEFORE it; under CPU load that window reaches
+// milliseconds. A request racing with the change may be served either way; the cells are about
+// requests that arrive after the change took effect.)
 func (w *world) setMap(ms string) error {
+	if err := w.administer(ms); err != nil {
+		return err
+	}
+	deadline := time.Now().Add(300 * time.Millisecond)
+	for w.tun["A"].StoredValid(w.m) != (ms == "active") && time.Now().Before(deadline) {
+		time.Sleep(200 * time.Microsecond)
+	}
+	return nil
+}
+
+func (w *world) administer(ms string) error {
 	t := w.tun["A"]
 	switch ms {
 	case "active":
@@ -214,6 +249,8 @@ func (w *world) setMap(ms string) error {
 		return nil
 	case "expired":
 		return t.Expire(w.m)
+	case "expiredJust": // the boundary: expired a moment ago
+		return t.ExpireAt(w.m, time.Now().Add(-expiredJustAgo))
 	case "inactive":
 		return t.Deactivate(w.m)
 	case "missing":
@@ -261,8 +298,10 @@ func (w *world) login(c *srvkit.Conn, id string) error {
 	return nil
 }
 
-func (w *world) request(cred string) *packet.TunnelOpenRequest {
-	r := &packet.TunnelOpenRequest{TunnelID: tunnelID}
+func usageOrder(ord string) bool { return ord == "slowUsage" || ord == "inflightUsage" }
+
+func (w *world) request(cred, tid string) *packet.TunnelOpenRequest {
+	r := &packet.TunnelOpenRequest{TunnelID: w.tids[tid]}
 	switch cred {
 	case "idOnly":
 		r.MappingID = w.m
@@ -281,24 +320,45 @@ func (w *world) request(cred string) *packet.TunnelOpenRequest {
 	return r
 }
 
-// bridge finds the bridge of the tunnel id, whichever mapping / node it belongs to.
-func (w *world) bridge() (node, mapping string, v srvkit.BridgeView) {
+type bridgeAt struct {
+	node, tid, mapping string
+	v                  srvkit.BridgeView
+}
+
+// bridges lists the bridges registered under the cell's tunnel ids, whichever mapping / node.
+func (w *world) bridges() (out []bridgeAt) {
 	for _, n := range []string{"A", "B"} {
 		s := w.nodes[n]
 		if s == nil {
 			continue
 		}
 		for _, m := range []struct{ name, id string }{{"M", w.m}, {"M2", w.m2}, {"M3", w.m3}} {
-			if b := s.Bridge(m.id); b.Exists && b.TunnelID == tunnelID {
-				return n, m.name, b
+			b := s.Bridge(m.id)
+			if !b.Exists {
+				continue
 			}
+			for name, id := range w.tids {
+				if b.TunnelID == id {
+					out = append(out, bridgeAt{n, name, m.name, b})
+				}
+			}
+		}
+	}
+	return out
+}
+
+// bridge finds the bridge registered under the named tunnel id.
+func (w *world) bridge(tid string) (node, mapping string, v srvkit.BridgeView) {
+	for _, b := range w.bridges() {
+		if b.tid == tid {
+			return b.node, b.mapping, b.v
 		}
 	}
 	return "", "-", srvkit.BridgeView{}
 }
 
-func (w *world) arrival(node string) (ts, tm string) {
-	n, m, b := w.bridge()
+func (w *world) arrival(node, tid string) (ts, tm string) {
+	n, m, b := w.bridge(tid)
 	switch {
 	case n == "":
 		return "none", "-"
@@ -310,22 +370,31 @@ func (w *world) arrival(node string) (ts, tm string) {
 	return "waiting", m
 }
 
-// attachment of a party as the servers' books have it.
-func (w *world) attachment(p *party) string {
-	n, _, b := w.bridge()
-	if n == "" || p.d == nil {
-		return "none"
+// attached: the bridge a party is attached to as the servers' books have it (nil: none).
+func (w *world) attached(p *party) (kind string, at *bridgeAt) {
+	if p.d == nil {
+		return "none", nil
 	}
-	switch {
-	case b.Source == p.d:
-		return "src"
-	case b.Target == p.d:
-		return "tgt"
-	case p.node != n && p.ack == "ok" && b.CrossNode:
-		return "fwd"
+	bs := w.bridges()
+	for i := range bs {
+		switch b := &bs[i]; {
+		case b.v.Source == p.d:
+			return "src", b
+		case b.v.Target == p.d:
+			return "tgt", b
+		}
 	}
-	return "none"
+	// forwarded from another node: the source node's bridge holds a cross-node connection (the
+	// scripts forward at most one connection per cell)
+	for i := range bs {
+		if b := &bs[i]; p.node != b.node && p.ack == "ok" && b.v.CrossNode {
+			return "fwd", b
+		}
+	}
+	return "none", nil
 }
+
+func (w *world) attachment(p *party) string { k, _ := w.attached(p); return k }
 
 func waitFor(cond func() bool) bool {
 	deadline := time.Now().Add(settle)
@@ -356,13 +425,33 @@ func (w *world) duplexOf(c interface{}) *srvkit.Duplex {
 var bindSteps, bindMismatch atomic.Int64
 var firstMismatch atomic.Pointer[string]
 
+func (w *world) before() map[string]srvkit.BridgeView {
+	m := map[string]srvkit.BridgeView{}
+	for _, b := range w.bridges() {
+		m[b.tid] = b.v
+	}
+	return m
+}
+
+func (w *world) anyCross() bool {
+	for _, b := range w.bridges() {
+		if b.v.CrossNode {
+			return true
+		}
+	}
+	return false
+}
+
 func (w *world) open(st stepT, cell cellT, t *fw.Trace) (err error) {
 	s := w.nodes[st.Node]
 	if s == nil {
 		return fmt.Errorf("node %q not assembled", st.Node)
 	}
+	if st.Tid == "" {
+		st.Tid = "T"
+	}
 	if st.Who == "T" {
-		if n, _, _ := w.bridge(); n == "" {
+		if n, _, _ := w.bridge("T"); n == "" {
 			return nil // the target is told to connect only once a bridge exists
 		}
 	}
@@ -374,28 +463,34 @@ func (w *world) open(st stepT, cell cellT, t *fw.Trace) (err error) {
 	if err := w.login(c, st.ID); err != nil {
 		return err
 	}
-	p := &party{who: st.Who, node: st.Node, c: c, d: d, ack: "none", mark: fmt.Sprintf("<<MARK-%s-%d>>", st.Who, time.Now().UnixNano())}
+	p := &party{who: st.Who, node: st.Node, tid: st.Tid, c: c, d: d, ack: "none", mark: fmt.Sprintf("<<MARK-%s-%d>>", st.Who, time.Now().UnixNano())}
 	w.parties[st.Who] = p
 	w.order = append(w.order, st.Who)
-	ts, tm := w.arrival(st.Node)
-	_, _, p.before = w.bridge()
+	ts, tm := w.arrival(st.Node, st.Tid)
+	p.before = w.before()
 	late := strings.HasPrefix(cell.TS, "late") && st.Who == "R"
 	if late {
 		ts = cell.TS // nothing registered at arrival; the tunnel appears while the request is served
+	}
+	if cell.TS == "prefixRemote" && st.Who == "R" {
+		ts = cell.TS // remote, and the named id shares its 16-byte prefix with another tunnel there
 	}
 	ms := cell.MS
 	if st.MS != "" {
 		ms = st.MS
 	}
 	p.st = st
-	p.ev = fw.Event{"ev": "Open", "who": st.Who, "id": st.ID, "cred": st.Cred, "ms": ms, "ts": ts, "tm": tm, "node": st.Node, "via": st.Via}
+	p.ev = fw.Event{"ev": "Open", "who": st.Who, "id": st.ID, "cred": st.Cred, "ms": ms, "ts": ts, "tm": tm, "node": st.Node, "tid": st.Tid, "via": st.Via}
 	if cell.Keyless {
 		p.ev["keyless"] = true
 	}
 	if cell.Shape != "" && cell.Shape != "std" {
 		p.ev["shape"] = cell.Shape
 	}
-	req := w.request(st.Cred)
+	if usageOrder(cell.Ord) {
+		p.ev["ord"] = cell.Ord
+	}
+	req := w.request(st.Cred, st.Tid)
 	send := func() error {
 		ack, _, _, err := c.TunnelOpen(req)
 		if err != nil {
@@ -420,10 +515,113 @@ func (w *world) open(st stepT, cell cellT, t *fw.Trace) (err error) {
 		time.Sleep(lateGap)
 		return nil
 	}
+	if w.gate != nil && st.Who == "S" {
+		return w.openSlowStore(p, cell, t, send)
+	}
 	if err := send(); err != nil {
 		return err
 	}
 	return w.finish(p, cell, t, st.Exp)
+}
+
+// openSlowStore: the source's open against a slow mapping store. The next whole-record write
+// (RecordMappingUsage's write-back: its read has happened) parks at the gate. Where it parks
+// tells how the tree does the write:
+//   - on the goroutine serving the request: the write is part of HandleTunnelOpen, the open cannot
+//     be acknowledged before it has landed. Order slowUsage (mapping changed AFTER the
+//     acknowledgement): let it land now. Order inflightUsage: keep it parked, the mapping is
+//     changed while the open is still in flight.
+//   - on another goroutine: the open is acknowledged with the write still pending; it stays
+//     parked until the UsageLand step, i.e. until after the mapping was changed.
+func (w *world) openSlowStore(p *party, cell cellT, t *fw.Trace, send func() error) error {
+	w.gate.Arm()
+	p.pending = make(chan error, 1)
+	ids := make(chan int64, 1)
+	go func() { ids <- srvkit.GoID(); p.pending <- send() }()
+	p.goid = <-ids
+	returned := false
+	select {
+	case <-w.gate.Hit():
+	case err := <-p.pending:
+		if err != nil {
+			return err
+		}
+		returned = true
+		// acknowledged without a write at the gate: either nothing is written, or the write runs
+		// in the background and has not reached the store yet - give it a moment
+		if p.ack == "ok" {
+			select {
+			case <-w.gate.Hit():
+			case <-time.After(time.Second):
+			}
+		}
+		if parked, _ := w.gate.Parked(); !parked {
+			w.gate.Release() // disarm: nothing will be held
+		}
+	case <-time.After(settle):
+		return inconclusiveErr("the source's open neither returned nor reached the mapping store")
+	}
+	if parked, goid := w.gate.Parked(); !returned && parked && goid == p.goid {
+		if cell.Ord == "inflightUsage" {
+			w.heldS = true
+			return nil
+		}
+		w.gate.Release()
+	}
+	if !returned {
+		select {
+		case err := <-p.pending:
+			if err != nil {
+				return err
+			}
+		case <-time.After(settle):
+			return inconclusiveErr("the source's open did not return")
+		}
+	}
+	p.pending = nil
+	return w.finish(p, cell, t, p.st.Exp)
+}
+
+// usageLand: the slow store completes the held write (if one is held).
+func (w *world) usageLand(st stepT, cell cellT, t *fw.Trace) error {
+	if w.gate == nil {
+		return fmt.Errorf("no slow store in this cell")
+	}
+	w.gate.Release()
+	if w.heldS {
+		w.heldS = false
+		p := w.parties["S"]
+		select {
+		case err := <-p.pending:
+			if err != nil {
+				return err
+			}
+		case <-time.After(settle):
+			return inconclusiveErr("the source's open did not return after its usage write")
+		}
+		p.pending = nil
+		if err := w.finish(p, cell, t, p.st.Exp); err != nil {
+			return err
+		}
+	}
+	if len(st.Exp) > 0 {
+		var e struct {
+			Valid bool `json:"valid"`
+		}
+		if json.Unmarshal(st.Exp, &e) == nil {
+			bindSteps.Add(1)
+			got := w.tun["A"].StoredValid(w.m)
+			for dl := time.Now().Add(100 * time.Millisecond); got != e.Valid && time.Now().Before(dl); got = w.tun["A"].StoredValid(w.m) {
+				time.Sleep(200 * time.Microsecond) // a read that joined an older in-flight read (see setMap)
+			}
+			if got != e.Valid {
+				bindMismatch.Add(1)
+				s := fmt.Sprintf("UsageLand %s:%s:%s:%s: model stored-valid=%v, store %v", cell.ID, cell.Cred, cell.MS, cell.Ord, e.Valid, got)
+				firstMismatch.CompareAndSwap(nil, &s)
+			}
+		}
+	}
+	return nil
 }
 
 // resolve waits for a request that was left running (late cells) and takes its outcome.
@@ -444,7 +642,7 @@ func (w *world) resolve(st stepT, cell cellT, t *fw.Trace) error {
 }
 
 // finish records the request's outcome and lets the asynchronous part of a successful open
-// finish, so that the next step meets a definite tunnel state: a joiner that made the bridge
+// finish, so that the next step meets a definite tunnel state: a joiner that made a bridge
 // ready => the copy loops (or the cross-node forwarders) have taken both sockets over.
 func (w *world) finish(p *party, cell cellT, t *fw.Trace, exp json.RawMessage) error {
 	st := p.st
@@ -455,13 +653,17 @@ func (w *world) finish(p *party, cell cellT, t *fw.Trace, exp json.RawMessage) e
 		w.bind(st, p, cell)
 		return nil
 	}
-	bn, _, after := w.bridge()
-	if bn != "" && bn != st.Node && !p.before.CrossNode {
-		waitFor(func() bool { _, _, b := w.bridge(); return b.CrossNode }) // TargetReady frame handled on the source node
-		_, _, after = w.bridge()
+	if bn, _, _ := w.bridge(p.tid); bn != "" && bn != st.Node {
+		was := false
+		for _, b := range p.before {
+			was = was || b.CrossNode
+		}
+		if !was {
+			waitFor(w.anyCross) // TargetReady frame handled on the source node
+		}
 	}
-	if bn != "" && !p.before.TargetReady && after.TargetReady && (after.Target == p.d || after.CrossNode) {
-		src := w.duplexOf(after.Source)
+	if kind, at := w.attached(p); at != nil && kind != "src" && !p.before[at.tid].TargetReady && at.v.TargetReady {
+		src := w.duplexOf(at.v.Source)
 		ok := waitFor(func() bool { return p.d.Waiting() > 0 && (src == nil || src.Waiting() > 0) })
 		if !ok {
 			return inconclusiveErr("bridge did not take the sockets over within the margin")
@@ -498,7 +700,7 @@ func (w *world) bind(st stepT, p *party, cell cellT) {
 }
 
 // markers: every acknowledged end writes its marker into its socket; then the final snapshot.
-func (w *world) markers(t *fw.Trace, legitServed bool) error {
+func (w *world) markers(t *fw.Trace, cell cellT, legitServed bool) error {
 	var writers []*party
 	for _, who := range w.order {
 		if p := w.parties[who]; p.ack == "ok" && !p.c.Closed() {
@@ -506,20 +708,23 @@ func (w *world) markers(t *fw.Trace, legitServed bool) error {
 			p.d.Feed([]byte(p.mark))
 		}
 	}
-	seen := func(p *party) (marker bool) {
+	// whose marker a party read ("" none)
+	from := func(p *party) *party {
 		raw := p.c.T.Peek()
 		for _, q := range writers {
 			if q != p && bytes.Contains(raw, []byte(q.mark)) {
-				return true
+				return q
 			}
 		}
-		return false
+		return nil
 	}
-	// expected deliveries, from the servers' own books: a ready bridge forwards the source's bytes
-	// to somebody and somebody's bytes to the source
-	_, _, b := w.bridge()
-	if b.Exists && b.TargetReady {
-		src := w.duplexOf(b.Source)
+	// expected deliveries, from the servers' own books: a ready bridge forwards its source's bytes
+	// to somebody and somebody's bytes to its source
+	for _, b := range w.bridges() {
+		if !b.v.TargetReady {
+			continue
+		}
+		src := w.duplexOf(b.v.Source)
 		var sp *party
 		for _, p := range w.parties {
 			if p.d == src && src != nil {
@@ -528,7 +733,7 @@ func (w *world) markers(t *fw.Trace, legitServed bool) error {
 		}
 		if sp != nil && sp.ack == "ok" {
 			ok := waitFor(func() bool {
-				if !seen(sp) {
+				if from(sp) == nil {
 					return false
 				}
 				for _, p := range w.parties {
@@ -544,14 +749,28 @@ func (w *world) markers(t *fw.Trace, legitServed bool) error {
 		}
 	}
 	time.Sleep(grace)
-	att, marker, stray := map[string]any{}, map[string]any{}, map[string]any{}
+	att, am, marker, lm, stray := map[string]any{}, map[string]any{}, map[string]any{}, map[string]any{}, map[string]any{}
+	mapOf := func(p *party) string {
+		if _, at := w.attached(p); at != nil {
+			return at.mapping
+		}
+		return "-"
+	}
 	for who, p := range w.parties {
-		att[who] = w.attachment(p)
-		marker[who] = seen(p)
+		att[who], am[who] = w.attachment(p), mapOf(p)
+		q := from(p)
+		marker[who], lm[who] = q != nil, "-"
+		if q != nil {
+			lm[who] = mapOf(q) // the tunnel the bytes came from is the one their writer is attached to
+		}
 		stray[who] = len(p.c.T.Peek()) > 0 // Send drained the acknowledgement; anything here came later
 	}
-	_, bm, _ := w.bridge()
-	t.Events = append(t.Events, fw.Event{"ev": "Obs", "bm": bm, "att": att, "marker": marker, "stray": stray})
+	rt := "T"
+	if r := w.parties["R"]; r != nil {
+		rt = r.tid
+	}
+	_, bm, _ := w.bridge(rt)
+	t.Events = append(t.Events, fw.Event{"ev": "Obs", "bm": bm, "att": att, "am": am, "marker": marker, "lm": lm, "stray": stray})
 	if legitServed {
 		s, tg := w.parties["S"], w.parties["T"]
 		if s == nil || tg == nil || marker["S"] != true || marker["T"] != true {
@@ -574,7 +793,7 @@ func drive(env *fw.Env, b fw.Behaviour) *fw.Trace {
 			two = true
 		}
 	}
-	w, err := newWorld(two, strings.HasPrefix(beh.Cell.TS, "late"), beh.Cell.Keyless, beh.Cell.Shape)
+	w, err := newWorld(two, strings.HasPrefix(beh.Cell.TS, "late"), beh.Cell.Keyless, beh.Cell.Shape, beh.Cell)
 	if err != nil {
 		return &fw.Trace{Status: fw.DriverError, Note: "world: " + err.Error()}
 	}
@@ -583,6 +802,11 @@ func drive(env *fw.Env, b fw.Behaviour) *fw.Trace {
 	t.Events = append(t.Events, fw.Event{"ev": "Cell", "id": beh.Cell.ID, "cred": beh.Cell.Cred, "ms": beh.Cell.MS, "ts": beh.Cell.TS, "ord": beh.Cell.Ord})
 	cur := "active"
 	legit := beh.Cell.Ord == "legitFirst"
+	defer func() {
+		if w.gate != nil {
+			w.gate.Release() // never leave a request parked in the slow store
+		}
+	}()
 	for _, st := range beh.Steps {
 		var err error
 		switch st.Op {
@@ -594,12 +818,14 @@ func drive(env *fw.Env, b fw.Behaviour) *fw.Trace {
 		case "Open":
 			st.MS = cur
 			// the plain legitimate flows on an untouched active mapping have to work
-			st.Must = st.Must || (legit && st.Who != "R")
+			st.Must = st.Must || (legit && st.Who != "R") || (beh.Cell.Ord == "slowUsage" && st.Who == "S")
 			err = w.open(st, beh.Cell, t)
 		case "Resolve":
 			err = w.resolve(st, beh.Cell, t)
 		case "Marker":
-			err = w.markers(t, beh.Cell.Ord == "legitFirst" && beh.Cell.TS == "served")
+			err = w.markers(t, beh.Cell, beh.Cell.Ord == "legitFirst" && beh.Cell.TS == "served")
+		case "UsageLand":
+			err = w.usageLand(st, beh.Cell, t)
 		default:
 			err = fmt.Errorf("step %q?", st.Op)
 		}
@@ -695,17 +921,24 @@ func selfTest(env *fw.Env, acc []*fw.Trace) []*fw.Trace {
 }
 
 func main() {
-	all := `{"none", "waiting", "served", "remote", "lateLocal", "lateRemote"}`
-	local := `{"none", "waiting", "served", "lateLocal", "lateRemote"}` // the late classes are few (70 cells) and carry their own nodes
+	all := `{"none", "waiting", "served", "remote", "lateLocal", "lateRemote", "prefixRemote"}`
+	local := `{"none", "waiting", "served", "lateLocal", "lateRemote", "prefixRemote"}` // the late / prefix classes are few (105 cells) and carry their own nodes
+	orders := `{"legitFirst", "reqFirst", "slowUsage"}`
+	genOrders := orders
+	if os.Getenv("VERIF_C04_INFLIGHT") != "" {
+		// development aid: also change the mapping while the earlier open is still between the
+		// read and the write of its usage record (see spec/TunnelOpen_show_inflight.cfg)
+		genOrders = `{"legitFirst", "reqFirst", "slowUsage", "inflightUsage"}`
+	}
 	fw.Main(&fw.Property{
 		ID:        "C04",
 		DesignRef: "DESIGN.md §5 C04",
 		ModelJobs: func(env *fw.Env) []fw.TLCJob {
 			return []fw.TLCJob{
 				{Name: "dispatcher, tunnox-core as found (invariants masked by the named deviations)", Module: "TunnelOpen", Cfg: "TunnelOpen_mc.cfg", Workers: 2,
-					Consts: map[string]string{"FIXES": "{}", "MASKED": "TRUE", "EMIT": "FALSE", "TSTATES": all}},
+					Consts: map[string]string{"FIXES": "{}", "MASKED": "TRUE", "EMIT": "FALSE", "TSTATES": all, "ORDERS": orders}},
 				{Name: "dispatcher, with patches C04-1..3 (strict invariants, no deviation reachable)", Module: "TunnelOpen", Cfg: "TunnelOpen_mc.cfg", Workers: 2,
-					Consts: map[string]string{"FIXES": patched, "MASKED": "FALSE", "EMIT": "FALSE", "TSTATES": all}},
+					Consts: map[string]string{"FIXES": patched, "MASKED": "FALSE", "EMIT": "FALSE", "TSTATES": all, "ORDERS": orders}},
 			}
 		},
 		GenJobs: func(env *fw.Env) []fw.TLCJob {
@@ -714,7 +947,7 @@ func main() {
 				ts = all
 			}
 			return []fw.TLCJob{{Name: "gen:cells", Module: "TunnelOpen", Cfg: "TunnelOpen_mc.cfg", Workers: 2,
-				Consts: map[string]string{"FIXES": fixes, "MASKED": "TRUE", "EMIT": "TRUE", "TSTATES": ts}}}
+				Consts: map[string]string{"FIXES": fixes, "MASKED": "TRUE", "EMIT": "TRUE", "TSTATES": ts, "ORDERS": genOrders}}}
 		},
 		ExtraBeh:    extra,
 		Drive:       drive,
